@@ -348,22 +348,22 @@ def rule_R7(body, arg=None):
     return body, n + k
 
 
-def rule_SUB(body, arg):
+def rule_SUB(body, arg, optional=False):
     """R8 type/name adaptation: literal replacement `from=>to`, must match at least once."""
     frm, to = arg.split("=>")
     n = body.count(frm.strip())
-    if n == 0:
+    if n == 0 and not optional:
         raise LostAnchor("R8: text `%s` not found" % frm.strip())
     return body.replace(frm.strip(), to.strip()), n
 
 
-def rule_SUBW(body, arg):
+def rule_SUBW(body, arg, optional=False):
     """R8w: as R8, but blind to layout: whitespace in `from` and in the source is ignored (rustfmt breaks long
     method chains over several lines); must match at least once."""
     frm, to = arg.split("=>")
     chars = [re.escape(ch) for ch in re.sub(r"\s+", "", frm)]
     body, n = re.subn(r"\s*".join(chars), lambda m: to.strip(), body)
-    if n == 0:
+    if n == 0 and not optional:
         raise LostAnchor("R8w: text `%s` not found" % frm.strip())
     return body, n
 
@@ -445,7 +445,10 @@ def rule_R14(body, arg):
     return re.subn(r"break\s+'%s\s*;" % re.escape(arg.strip()), "return Ok(());", body)
 
 
-RULES = {"R13r": rule_R13r, "R14": rule_R14, "R4s": rule_R4s, "R13": rule_R13, "R4d": rule_R4d, "R12": rule_R12, "R1p": rule_R1p, "R6n": rule_R6n, "R10": rule_R10, "R11": rule_R11, "R1": rule_R1, "R2": rule_R2, "R3": rule_R3, "R4": rule_R4, "R6": rule_R6, "R7": rule_R7, "R8": rule_SUB, "R8w": rule_SUBW}
+RULES = {"R13r": rule_R13r, "R14": rule_R14, "R4s": rule_R4s, "R13": rule_R13, "R4d": rule_R4d, "R12": rule_R12, "R1p": rule_R1p, "R6n": rule_R6n, "R10": rule_R10, "R11": rule_R11, "R1": rule_R1, "R2": rule_R2, "R3": rule_R3, "R4": rule_R4, "R6": rule_R6, "R7": rule_R7, "R8": rule_SUB, "R8w": rule_SUBW,
+         # R8o / R8wo: the same adaptations where the construct may legitimately be absent (nothing to adapt then; what
+         # remains is verified as it stands)
+         "R8o": lambda b, a: rule_SUB(b, a, True), "R8wo": lambda b, a: rule_SUBW(b, a, True)}
 
 
 def apply_rules(body, rules, counts):
@@ -453,7 +456,7 @@ def apply_rules(body, rules, counts):
         r = r.strip()
         if not r:
             continue
-        m = re.match(r"(R\d+[npdswr]?)(?:\[(.*)\])?$", r, re.S)
+        m = re.match(r"(R\d+[a-z]{0,2})(?:\[(.*)\])?$", r, re.S)
         if not m or m.group(1) not in RULES:
             raise ValueError("unknown rule %r" % r)
         body, n = RULES[m.group(1)](body, m.group(2))
